@@ -600,6 +600,7 @@ func Strict(b []byte) error {
 type RawSection struct {
 	Name string
 	Data []byte
+	Decl *uint64 // declared length in the section table, if it is to differ from len(Data)
 }
 
 // Build serializes a bundle from raw sections.
@@ -615,7 +616,11 @@ func Build(version, primaryURL string, secs []RawSection) []byte {
 	tbl = refcbor.AppendArray(tbl, 2*len(secs))
 	for _, s := range secs {
 		tbl = refcbor.AppendText(tbl, s.Name)
-		tbl = refcbor.AppendUint(tbl, uint64(len(s.Data)))
+		if s.Decl != nil {
+			tbl = refcbor.AppendUint(tbl, *s.Decl)
+		} else {
+			tbl = refcbor.AppendUint(tbl, uint64(len(s.Data)))
+		}
 	}
 	out = refcbor.AppendBytes(out, tbl)
 	out = refcbor.AppendArray(out, len(secs))
@@ -631,7 +636,7 @@ func Build(version, primaryURL string, secs []RawSection) []byte {
 func (p *Parsed) RawSections(b []byte) []RawSection {
 	var rs []RawSection
 	for _, s := range p.Sections {
-		rs = append(rs, RawSection{s.Name, append([]byte(nil), b[s.Off:s.Off+s.Len]...)})
+		rs = append(rs, RawSection{Name: s.Name, Data: append([]byte(nil), b[s.Off:s.Off+s.Len]...)})
 	}
 	return rs
 }
